@@ -169,6 +169,8 @@ def directed_collisions():
                 [A("a", "x"), A("b", "y"), A("a", "y"), A("a"), D("a")], [A("a", "x"), A("b"), A("b", "x"), D("b")], [A("a", "x"), A("b", "y"), A("a", "y"), A("b", "x"), D("a")],
                 [A("a", "x"), A("b", "y"), A("a", "y"), D("a"), A("c", "x")], [A("c", "y"), A("a", "x"), A("c", "x"), A("c"), D("a")],      # (the last one: the open finding StaleRequeue)
                 [A("a", "x", "y"), A("b"), A("b", "y"), A("a", "x"), D("b"), A("c", "y")]]
+    # an OBJECT whose own name is a server name of another cluster: refused, then deleted - the owner keeps everything
+    directed += [[A("a", "b"), A("b"), D("b")], [A("a", "b", "x"), A("b", "y"), D("b"), A("c", "y")], [A("a", "x"), A("b", "a"), A("a"), D("a")]]
     # a conflict that LASTS (40 s: eight retries) before it goes away: the refused version is still retried and applied
     W = {"k": "wait", "c": "", "al": []}
     directed += [[A("a", "x"), A("b", "y"), A("a", "y"), W, D("b")], [A("a", "x"), A("b"), A("b", "x"), W, A("a")]]
@@ -251,7 +253,7 @@ def run(prop, tier, replay):
                         raise Infra("Names.tla (colliding objects) variant %s: unexpected result %s" % (variant, nc.violated()))
                     states, trans = states + nc.distinct, trans + nc.generated
                 nco = 80 if tier == "quick" else 1000
-                genc = vlib.tlc("dataplane", "NamesGen", "NamesGen.cfg", workers=1, timeout=900, simulate="num=%d" % (nco * 3), depth=40, tlc_seed=seed + 7, consts={"Admission": "FALSE", "MaxEvents": 6})
+                genc = vlib.tlc("dataplane", "NamesGen", "NamesGen.cfg", workers=1, timeout=900, simulate="num=%d" % (nco * 3), depth=40, tlc_seed=seed + 7, consts={"Admission": "FALSE", "MaxEvents": 6, "Aliases": '{"x", "y", "b"}'})      # (a server name may be another cluster's own name)
                 hc = list({vlib.canon(h): h for h in genc.json_prints("HIST")}.values())
                 rng.shuffle(hc)
                 directed = directed_collisions()
